@@ -89,6 +89,9 @@ def _print(eng, e, st):
     return PNone()
 
 
+GHOST_READONLY = ('$quit',)     # ghost inputs that no function changes
+
+
 def bind_args(con, selfpair, args, kwargs, e, eng):
     names = list(con.params)
     vals = {}
@@ -142,6 +145,7 @@ def apply_contract(eng, con, selfpair, args, kwargs, e, st, ctor=None):
     else:
         vals, exprs = bind_args(con, selfpair, args, kwargs, e, eng)
     ghosts = [n for n in con.params if n.startswith('$')]
+    ghosts_rw = [n for n in ghosts if n not in GHOST_READONLY]
     for gname in ghosts:
         if gname not in st.env:
             raise Unsupported('%s: callee %s needs ghost state %s which the caller does not carry'
@@ -171,10 +175,15 @@ def apply_contract(eng, con, selfpair, args, kwargs, e, st, ctor=None):
     if case.when is not None:
         st.assume(case.when(c))
     res = case.make(c)
+    if ctor is not None and isinstance(res, PNone):
+        res = fresh(con.params['self'], 'new_' + ctor.rsplit('.', 1)[-1].rsplit(':', 1)[-1])
     after = {}
-    for m in list(con.mutates) + ghosts:
+    for m in list(con.mutates) + ghosts_rw:
         after[m] = fresh(con.params[m], m + "'")
-    if 'self' in con.params and con.self_modifies:
+    for gname in ghosts:
+        if gname in GHOST_READONLY:
+            after[gname] = vals[gname]
+    if 'self' in con.params and con.self_modifies and ctor is None:
         obj = vals['self']
         shp = con.params['self']
         for fld in con.self_modifies:
@@ -203,7 +212,7 @@ def apply_contract(eng, con, selfpair, args, kwargs, e, st, ctor=None):
     # write back mutated objects into the caller's l-values
     for m in con.mutates:
         eng.assign(exprs[m], after[m], st)
-    for gname in ghosts:
+    for gname in ghosts_rw:
         st.env[gname] = after[gname]
     if 'self' in con.params and con.self_modifies and ctor is None:
         eng.assign(exprs['self'], after['self'], st)
